@@ -68,17 +68,7 @@ func ruleC03(p *Program, r *Run) {
 	_ = inRegion
 
 	// ---- kinds: parser table
-	jt := p.PkgVarValue(p.Parser, "joinTypes").(*ast.CompositeLit)
-	parserKinds := map[string]bool{}
-	for _, el := range jt.Elts {
-		if kv, ok := el.(*ast.KeyValueExpr); ok {
-			if s, ok := constString(p.Parser.TypesInfo, kv.Key); ok {
-				parserKinds[s] = true
-			}
-		} else if s, ok := constString(p.Parser.TypesInfo, el); ok {
-			parserKinds[s] = true // the table kept as a list of names
-		}
-	}
+	parserKinds, jt := p.parserJoinKinds()
 	var all []string
 	for k := range docJoinKinds {
 		all = append(all, k)
@@ -563,4 +553,20 @@ func (c *rewriteClient) Return(e *Engine, st *State, ret *ast.ReturnStmt) {
 	if len(why) > 0 {
 		e.Site("C03/rewrite", key, ret, false, strings.Join(why, "; "))
 	}
+}
+
+// parserJoinKinds: the join kinds the parser's table accepts (a map keyed by name, or a list of names).
+func (p *Program) parserJoinKinds() (map[string]bool, *ast.CompositeLit) {
+	jt := p.PkgVarValue(p.Parser, "joinTypes").(*ast.CompositeLit)
+	parserKinds := map[string]bool{}
+	for _, el := range jt.Elts {
+		if kv, ok := el.(*ast.KeyValueExpr); ok {
+			if s, ok := constString(p.Parser.TypesInfo, kv.Key); ok {
+				parserKinds[s] = true
+			}
+		} else if s, ok := constString(p.Parser.TypesInfo, el); ok {
+			parserKinds[s] = true // the table kept as a list of names
+		}
+	}
+	return parserKinds, jt
 }
